@@ -196,8 +196,13 @@ func runC10Case(cc c10Case) (string, string) {
 			return "connection-dead-after-cancel", fmt.Sprintf("%s: cancelling the context of a call that had succeeded broke the connection: %v", desc, lerr)
 		}
 	case "during-blocked", "before":
+		if err == nil && cc.When == "before" {
+			// a call whose context was already done may still complete when it never has to wait (it can
+			// win the race against the timeout watcher); the property does not demand that it fails
+			return "", ""
+		}
 		if err == nil {
-			return "cancelled-call-succeeded", desc + ": the call returned nil although it was blocked/cancelled"
+			return "cancelled-call-succeeded", desc + ": the call returned nil although it was blocked when its context was cancelled"
 		}
 		if took > 2*time.Second {
 			return "cancelled-call-slow", fmt.Sprintf("%s: returned after %v", desc, took)
